@@ -10,6 +10,7 @@ import (
 	"path/filepath"
 	"sort"
 	"strings"
+	"sync"
 	"sync/atomic"
 	"time"
 
@@ -30,6 +31,7 @@ type RecvNode struct {
 	gks       map[string]*gkDeco
 	dirty     atomic.Bool
 	bootStep  int
+	recovering sync.Map // source -> true while its start-up recovery has not finished
 }
 
 func (n *RecvNode) isDead() bool     { return n.dead.Load() }
@@ -186,6 +188,13 @@ func (s *Sim) bootReceiver(root string, inc int) *RecvNode {
 	}
 	s.recv = n
 	s.recvAll = append(s.recvAll, n)
+	if ents, err := os.ReadDir(n.stageDir()); err == nil {
+		for _, e := range ents {
+			if e.IsDir() {
+				n.recovering.Store(e.Name(), true) // serverApp.init starts Recover() for it
+			}
+		}
+	}
 	stshttp.DefaultServer = nil
 	sa := &serverApp{conf: conf.Server}
 	if err = sa.init(); err != nil {
@@ -233,6 +242,15 @@ func (s *Sim) bootSender(root string, inc int) *SendNode {
 	n.done = make(chan bool)
 	s.send = n
 	s.sendAll = append(s.sendAll, n)
+	if s.mon != nil && inc > 0 {
+		// what the receiving side holds complete (validated or delivered) at restart
+		s.mon.heldAtBoot = map[string]string{}
+		for name, v := range s.expectedVersions() {
+			if ok, _ := s.receiverHoldsValidated(name, v.MD5); ok {
+				s.mon.heldAtBoot[name] = v.MD5
+			}
+		}
+	}
 	go func() {
 		c.broker.Start(n.stop, n.done)
 	}()
@@ -323,9 +341,12 @@ func (s *Sim) crashReceiver(why string, downFor time.Duration) {
 	}
 	s.restamp(old)
 	old.dead.Store(true)
-	newRoot := filepath.Join(s.ws, fmt.Sprintf("r%d", old.inc+1))
+	newRoot := filepath.Join(filepath.Dir(old.root), fmt.Sprintf("r%d", old.inc+1))
 	if err := copyTree(old.root, newRoot, func(rel string) bool { return rel == "conf.yaml" }); err != nil {
 		s.troublef("crash copy: %v", err)
+	}
+	if t, _ := s.sc.Extra["torn"].(bool); t {
+		s.tearTail(newRoot, why)
 	}
 	copyDirTimes(old.root, newRoot)
 	for _, l := range old.listeners {
